@@ -298,6 +298,27 @@ fn uninstall_rule(id: RuleId) {
     });
 }
 
+/// Read-only verification hook: per host (in registration order) the
+/// socket-table / binding-index / connection-index counts and the TCB
+/// scalars of every socket, including `Closed` ones that [`netstat`]
+/// hides. Panics if no `Net` is installed.
+#[cfg(feature = "verif-hooks")]
+pub fn verif_dump() -> Vec<kernel::verif::VerifHost> {
+    CURRENT.with(|c| {
+        let cell = c.borrow();
+        let net = cell
+            .as_ref()
+            .expect("no Net installed — call Net::enter() first");
+        net.fabric
+            .host_ids()
+            .map(|id| net.fabric.kernel(id).verif_dump())
+            .collect()
+    })
+}
+
+#[cfg(feature = "verif-hooks")]
+pub use crate::kernel::verif::{VerifHost, VerifSock, VerifTcb};
+
 /// Snapshot a host's socket table, Linux `netstat`-style. `host`
 /// accepts a hostname (resolved via DNS like [`Net::add_host`]) or a
 /// literal IP. Panics if no `Net` is installed, or if the address
